@@ -13,7 +13,8 @@ ID = "C16"
 LEVEL = "exploration"
 RULE = ("Figure documents with 1-6 files: PNG (valid signature + IHDR with arbitrary legal dimensions up to 2^31-1 + "
         "random tail), JPEG (SOI, random APPn/COM/DQT/DHT segments whose payloads may contain 0xFF, SOF0/1/2 with "
-        "arbitrary 16-bit dimensions, random tail), EMF (random bytes); suffixes .png .PNG .jpg .jpeg .JPG .emf; "
+        "arbitrary 16-bit dimensions, random tail; enumerated: SOF marker behind 30-190 KB of metadata segments), EMF (random bytes); "
+        "enumerated documents of 4-6 MiB (largest file first); suffixes .png .PNG .jpg .jpeg .JPG .emf; "
         "payload lengths incl. residues 0, 1, 39, 40, 41, 79, 80, 81 (mod 40) around the 80-hex-character line break; "
         "fig_width / fig_height scalar or lists shorter / equal / longer than the figure list; all alignments; the 27 "
         "placement triples; with/without title, subline, paragraph footnote and source. Oracle on the parsed picture "
@@ -46,6 +47,35 @@ def enumerate_cases(tier):
             {"suffix": ".emf", "stem": "a", "hex": body.hex(), "format": "emf", "w": None, "h": None},
             {"suffix": ".png", "stem": "b", "hex": (png_head + body).hex(), "format": "png", "w": 300, "h": 200},
         ], "fig_width": [2.0], "fig_height": [1.5, 3.0, 9.0]}}
+    yield from big_cases(tier)
+
+
+def jpeg_with_metadata(w, h, seg_sizes, tail=b""):
+    """A JPEG whose SOF marker follows metadata segments of the given payload sizes (EXIF / XMP / ICC in APP1 / APP2)."""
+    out = bytearray(b"\xff\xd8")
+    for k, n in enumerate(seg_sizes):
+        payload = bytes((k * 31 + i * 7) % 256 for i in range(n))
+        out += bytes([0xFF, (0xE1, 0xE2, 0xE2, 0xED)[k % 4]]) + (n + 2).to_bytes(2, "big") + payload
+    payload = bytes([8]) + h.to_bytes(2, "big") + w.to_bytes(2, "big") + bytes([3, 1, 0x11, 0, 2, 0x11, 1, 3, 0x11, 1])
+    out += bytes([0xFF, 0xC0]) + (len(payload) + 2).to_bytes(2, "big") + payload + tail
+    return bytes(out)
+
+
+def big_cases(tier):
+    """Pictures far above any buffer / batching threshold: JPEG headers behind 30-190 KB of metadata, and documents whose
+    files add up to several MiB (largest first, so a concurrent or chunked reader finishes them out of order)."""
+    for sizes in ([30000], [65000], [40000, 40000], [65533, 65533, 60000]):
+        data = jpeg_with_metadata(1234, 777, sizes, tail=b"\xff\xd9")
+        yield {"kind": "figure", "page": {"nrow": 40}, "figure": {"files": [
+            {"suffix": ".jpg", "stem": "meta", "hex": data.hex(), "format": "jpeg", "w": 1234, "h": 777}], "fig_width": 4.0, "fig_height": 3.0}}
+    png_head = lambda w, h: b"\x89PNG\r\n\x1a\n" + (13).to_bytes(4, "big") + b"IHDR" + w.to_bytes(4, "big") + h.to_bytes(4, "big") + b"\x08\x02\x00\x00\x00" + bytes(4)
+    mib = 1 << 20
+    for lens in ([12 * mib, 2 * mib, 300], [9 * mib, 400, 200, 100]) if tier == "thorough" else ([16 * mib, mib, 300], [16 * mib, 200, 2 * mib, 100]):
+        files = []
+        for k, n in enumerate(lens):
+            body = (bytes([k + 1]) * 251 + bytes(range(5))) * (n // 256 + 1)
+            files.append({"suffix": ".png", "stem": f"big{k}", "hex": (png_head(100 + k, 50 + k) + body[:n]).hex(), "format": "png", "w": 100 + k, "h": 50 + k})
+        yield {"kind": "figure", "page": {"nrow": 40}, "figure": {"files": files, "fig_width": 3.0, "fig_height": 2.0}}
 
 
 def size_at(spec, i, default=5.0):
